@@ -26,6 +26,9 @@ Oracles (written from the property text, the samplers' docstrings and the pinned
 * argument types   samples_per_class / size / num_labeled / num_unlabeled / world_size / rank given as numpy integers (and, where
                    the current code accepts them, 0-dim numpy arrays) of equal value: len and stream must equal those of
                    the python-int construction.
+* reconfiguration  a sampler built with another value of a public attribute the samplers read at call time (WeightedSampler.size incl.
+                   None; ClassBalancedSampler.samples_per_class (int) / shuffle; SemiSampler.num_labeled / num_unlabeled) and
+                   assigned the final value before its first iteration has the len and stream of a sampler constructed with it.
 * instances        a second sampler of the same family over a DIFFERENT dataset / weights / layout with equal (seed, epochs,
                    world size, size / samples_per_class / chunk sizes) lives in the same process: it is judged against its
                    own dataset by all clauses above, and re-iterating both instances one after the other and alternately
@@ -84,13 +87,16 @@ ASSUMPTIONS = [
     "numeric argument types: seeds (all samplers) and a non-zero SemiSampler rank reach torch.Generator.manual_seed, which itself rejects numpy "
     "integers (TypeError raised by torch, not by the repository) -> only python-int seeds / semi ranks are driven; a 0-dim numpy ARRAY as "
     "samples_per_class is not driven (the current ClassBalancedSampler consumes it in place: first epoch empty, reported to the coordinator)",
+    "reconfiguration histories only assign size (WeightedSampler), samples_per_class / shuffle (ClassBalancedSampler; samples_per_class=None is "
+    "resolved in the constructor and is not assignable afterwards) and num_labeled / num_unlabeled (SemiSampler); seed, length_mode, rank, "
+    "world_size, weights and dataset are not re-assigned",
     "an epoch's stream is a function of (seed, epoch, rank) only (all three samplers are seeded, default seed 0), so two concurrently "
     "consumed iterators of one sampler object must both equal the stand-alone stream",
 ]
 MONITORS = ["cb_epochs_checked", "cb_reuse_checked", "semi_epochs_checked", "semi_blocks_checked", "semi_rank_pairs_compared",
             "weighted_epochs_checked", "weighted_zero_weight_checked", "step_budget_runs", "indices_validated",
             "relabel_histories_checked", "concurrent_iterators_checked", "semi_through_dataset_checked", "semi_over_semiwrapper_checked",
-            "semi_through_loader_checked", "numeric_type_variants_checked", "companion_instances_checked", "cross_instance_reiterations_checked"]
+            "semi_through_loader_checked", "numeric_type_variants_checked", "companion_instances_checked", "cross_instance_reiterations_checked", "reconfigurations_checked"]
 
 _mods = [importlib.import_module(m) for m in (
     "kappadata.samplers.class_balanced_sampler", "kappadata.samplers.semi_sampler", "kappadata.samplers.weighted_sampler",
@@ -371,11 +377,37 @@ def _companion(rng, spec):
     return comp
 
 
+def _reconf(rng, spec):
+    """[[attribute, value the sampler is CONSTRUCTED with]]; the spec's own value is assigned before the first iteration"""
+    kind = spec["kind"]
+    out = []
+    if kind == "weighted":
+        n = len(spec["weights"])
+        init = rng.choice([None, rng.randint(1, n), n])
+        if init != spec["size"]:
+            out.append(["size", init])
+    elif kind == "cb":
+        if spec["spc"] is not None and rng.random() < 0.8:
+            init = rng.choice([None, rng.randint(1, 40)])
+            if init != spec["spc"]:
+                out.append(["samples_per_class", init])
+        if rng.random() < 0.4 or not out:
+            out.append(["shuffle", not spec["shuffle"]])
+    else:
+        for a, key in (("num_labeled", "L"), ("num_unlabeled", "U")):
+            if rng.random() < 0.6:
+                init = rng.randint(1, 5)
+                if init != spec[key]:
+                    out.append([a, init])
+    return out or None
+
+
 def gen_cases(run):
     n = run.n(6000, 400000)
     for i in range(n):
         spec = _GEN[i % 3](run.rng)
         spec["companion"] = _companion(run.rng, spec) if run.rng.random() < 0.3 else None
+        spec["reconf"] = _reconf(run.rng, spec) if run.rng.random() < 0.3 else None
         if not spec.get("via") and _expected_len(spec) == 0:
             spec["_trivial"] = True
         yield spec
@@ -825,6 +857,42 @@ def _numtype_check(run, spec, res):
     return True
 
 
+def _reconf_check(run, spec, res):
+    """built with another value, the public attribute assigned before the first iteration == built with the final value"""
+    rc = spec.get("reconf")
+    if not rc:
+        return True
+    kind, e, what = spec["kind"], res["epoch"], res["what"]
+    final = {"size": spec.get("size"), "samples_per_class": spec.get("spc"), "shuffle": spec.get("shuffle"),
+             "num_labeled": spec.get("L"), "num_unlabeled": spec.get("U")}
+    kw0 = dict(res["kw"])
+    for a, init in rc:
+        if init is None:
+            kw0.pop(a, None)
+        else:
+            kw0[a] = init
+    shown = {a: f"{init!r} -> {final[a]!r}" for a, init in rc}
+    for r, alone in enumerate(res["streams"]):
+        def go():
+            s = res["make"](kw0, _rank_kwargs(spec, r))
+            for a, _ in rc:
+                setattr(s, a, final[a])
+            s.set_epoch(e)
+            return len(s), list(itertools.islice(iter(s), len(alone) + 8))
+        run.count("step_budget_runs")
+        with StepBudget(_budget(2 * res["hint"] + 400), _CODES(), what=f"{what} reconfigured {shown}"):
+            ok, got = call_real(run, go, crash_key=f"{kind}:reconfiguration-crash", what=f"{what}, attributes assigned after construction: {shown}")
+        if not ok:
+            return False
+        run.count("reconfigurations_checked")
+        if got[0] != res["want"] or got[1] != alone:
+            run.violation(f"{kind}:reconfiguration-ignored",
+                          f"{what} epoch {e} rank {r}/{spec['W']}: constructed with other values and assigned {shown} before the first iteration: "
+                          f"len = {got[0]}, stream {_s(got[1])}; a sampler constructed with the final values has len = {res['want']}, stream {_s(alone)}")
+            return False
+    return True
+
+
 def _cross_check(run, spec, a, b):
     """two instances of one family over different datasets: re-iterated one after the other and alternately, each keeps its own stream"""
     kind, e = spec["kind"], a["epoch"]
@@ -893,6 +961,8 @@ def run_case(run, spec):
         if res is None:
             return
         if not _numtype_check(run, spec, res):
+            return
+        if not _reconf_check(run, spec, res):
             return
         comp = spec.get("companion")
         if comp:
